@@ -8,8 +8,8 @@ TARGETS = ["Base/Corr.vo", "C15/Model.vo", "C15/ModelBuf.vo", "C15/ModelCH.vo", 
            "C15/ProofsVitInst.vo", "C15/ProofsMix.vo", "C15/ProofsLog.vo", "C15/ProofsTop.vo", "C15/ProofsPost.vo", "C15/ProofsBW.vo", "C15/ProofsTop2.vo",
            "C15/Proofs.vo", "C15/Props.vo", "C15/ProofsCH.vo", "C15/PropsCH.vo", "C15/ProofsSet.vo", "C15/ProofsSet2.vo", "C15/PropsSet.vo",
            "C15/ProofsCls.vo", "C15/PropsCls.vo", "C15/ProofsHist.vo", "C15/PropsHist.vo",
-           "C15/ProofsBWN.vo", "C15/PropsBWN.vo"]
-PROPS = ["C15/Props.v", "C15/PropsCH.v", "C15/PropsSet.v", "C15/PropsCls.v", "C15/PropsHist.v", "C15/PropsBWN.v"]
+           "C15/ProofsBWN.vo", "C15/PropsBWN.vo", "C15/ProofsMix2.vo", "C15/PropsMix.vo", "C15/ProofsZero.vo", "C15/PropsZero.vo"]
+PROPS = ["C15/Props.v", "C15/PropsCH.v", "C15/PropsSet.v", "C15/PropsCls.v", "C15/PropsHist.v", "C15/PropsBWN.v", "C15/PropsMix.v", "C15/PropsZero.v"]
 PARTIAL = ("Theorems are about the hand-written semiring-polymorphic models coq/C15/Model.v (pure functions), "
            "coq/C15/ModelBuf.v (forward/backward/float64 copies, Posterior and one Baum-Welch step of a thread as state "
            "transformers on work buffers with arbitrary prior content), coq/C15/ModelCH.v (constrained / hierarchical "
@@ -17,7 +17,10 @@ PARTIAL = ("Theorems are about the hand-written semiring-polymorphic models coq/
            "HmmClassifier) and coq/C15/ModelHist.v (round 6: the config round trip as a history step); exact arithmetic in a "
            "commutative semiring; the log-space float code is connected "
            "through the ln/exp isomorphism stated over R and, per sampled case, through the exact-rational comparison of "
-           "exp(value) with relative tolerance 2^-36; binary64 rounding itself is not proved. Posterior theorem: "
+           "exp(value) with relative tolerance 2^-36; binary64 rounding itself is not proved. Round 7: a state with exactly zero emission density at any position k < n gets "
+           "alpha(i,k) = zero from float64ForwardBackward on any work matrices, fresh or recycled from earlier records (coq/C15/PropsZero.v; "
+           "a corollary of the buffer theorems, tied by table / bw cases with a zero forced at an interior position; exact semiring, "
+           "-Inf arithmetic of binary64 compared per case). Posterior theorem: "
            "duplicate-free state sets below m; with repeated states the claim is refuted (multiset value, compared per "
            "case); HmmPosterior.Eval likewise (proved for any list as the sum of the listed marginals, for duplicate-free lists "
            "as the enumerated probability of the set). Constrained HMM: the Lagrange multipliers of ChmmTransitionMatrix.Normalize come from Newton's method "
@@ -29,7 +32,11 @@ PARTIAL = ("Theorems are about the hand-written semiring-polymorphic models coq/
            "ShapeHmm share generic.Hmm's inference code and differ only in the emission table, over which the theorems "
            "quantify; the vectorClassifier front-ends are exercised through every wrapper built on vectorDistribution.Hmm "
            "(cat, chmm/hhmm with categorical emissions, histories), with Float64 result vectors only; vectorDistribution.Mixture "
-           "through ScalarId components (kind mixvec). Histories (coq/C15/ModelSet.v, ModelHist.v): generic.Hmm / "
+           "through ScalarId components (kind mixvec); round 7: Mixture.Posterior / Likelihood proved invariant under any reordering "
+           "of the component list and complementary subsets proved to sum to one (coq/C15/PropsMix.v, exact semifield; the float "
+           "LogAdd order dependence is inside the 2^-36 tolerance of the per-case comparison), every ordering of every subset compared per case for "
+           "k <= 3, two non-ascending orders per subset for k = 4; repeated components in a list: multiset value (compared per case, "
+           "not covered by the complement theorem). Histories (coq/C15/ModelSet.v, ModelHist.v): generic.Hmm / "
            "vectorDistribution.Hmm under SetStartStates / SetFinalStates / SetParameters / Clone / "
            "ImportConfig(json(ExportConfig())) in any order and number; "
            "the invariant Tf = normalise-final(current Tr, current final states) is proved for every such history, the "
@@ -115,7 +122,8 @@ def hunt(ctx, binary, bad):
     hp = os.path.join(ctx.dir, "hunt.json")
     if rc == 0 and os.path.exists(hp):
         h = json.load(open(hp))
-        ctx.cov.setdefault("extra", {})["hunt"] = {"tried": h.get("tried"), "grid_models": h.get("grid_models"),
+        ctx.cov.setdefault("extra", {})["hunt"] = {"tried": h.get("tried"), "grid_models": h.get("grid_models"), "grid_mixtures": h.get("grid_mixtures"),
+                                                   "grid_mix": "all 1728 3-component mixtures with unnormalised weights in {0,1/4,1/2,1} and densities in {0,1/2,1}: Posterior / Likelihood on every ordering of every component subset against the explicit sum, complementary subsets sum to one",
                                                    "grid": "2-state models, probabilities in {0,1/4,1/2,3/4,1}, categorical emissions over 2 symbols, start/final in {none,{0},{1}}, all observation sequences of length 1..4; Go-side brute-force enumeration"}
         for k in h.get("known") or []:
             if k.get("still") and k.get("id") in KNOWN_IDS:
@@ -148,10 +156,12 @@ def run(ctx):
     thms4 = vlib.theorem_names(os.path.join(vlib.COQ, "C15/PropsCls.v"))
     thms5 = vlib.theorem_names(os.path.join(vlib.COQ, "C15/PropsHist.v"))
     thms6 = vlib.theorem_names(os.path.join(vlib.COQ, "C15/PropsBWN.v"))
+    thms7 = vlib.theorem_names(os.path.join(vlib.COQ, "C15/PropsMix.v"))
+    thms8 = vlib.theorem_names(os.path.join(vlib.COQ, "C15/PropsZero.v"))
     if ok:
         ctx.cov["print_assumptions"] = vlib.print_assumptions("C15", [("C15.Props", thms), ("C15.PropsCH", thms2), ("C15.PropsSet", thms3),
                                                                       ("C15.PropsCls", thms4), ("C15.PropsHist", thms5),
-                                                                      ("C15.PropsBWN", thms6)], ctx.dir)
+                                                                      ("C15.PropsBWN", thms6), ("C15.PropsMix", thms7), ("C15.PropsZero", thms8)], ctx.dir)
     binary, blog = vlib.build_harness("c15")
     if binary is None:
         ctx.violation({"obligation": "build of harness/c15 against the library", "log": blog[-3000:]}, False,
